@@ -1,3 +1,51 @@
+import Mhd.Model.PP
 import Driver.Common
-/- stub: replaced by the builder of this engine -/
-def main : IO Unit := Driver.runEngine () (fun s _ => (s, ["bad-op"]))
+open Mhd.PP Driver
+
+/-
+  Engine `pp` — model driver.
+    create <bufsize> <content-type-hex>   →  ok | null
+    feed <hex>                            →  ret=<0|1> n=<calls> [k=… f=… t=… e=… off=… d=…]…
+    destroy                               →  same format
+  `~` = NULL pointer, `-` = empty byte string.
+-/
+
+def optHex : Option Bytes → String
+  | none => "~"
+  | some b => hexOfBytes b
+
+def showEv (e : Event) : String :=
+  s!"[k={optHex e.key} f={optHex e.filename} t={optHex e.ctype} e={optHex e.enc} off={e.off} d={hexOfBytes e.data}]"
+
+def showRes (pp : PP) (ret : Bool) : String :=
+  match pp.fault with
+  | some site => s!"fault {site}"
+  | none =>
+    let evs := pp.evs.map showEv
+    String.intercalate " " ([s!"ret={if ret then 1 else 0}", s!"n={pp.evs.length}"] ++ evs)
+
+def stepLine (s : Option PP) (ws : List String) : Option PP × List String :=
+  match ws with
+  | ["create", n, ct] =>
+    match n.toNat?, bytesOfHex ct with
+    | some k, some c =>
+      if k < Mhd.Gen.PP.minBufferSize ∨ k ≥ 2 ^ 32 ∨ c.contains 0 then (s, ["bad-op"])
+      else match create k c with
+        | some pp => (some pp, ["ok"])
+        | none => (none, ["null"])
+    | _, _ => (s, ["bad-op"])
+  | ["feed", h] =>
+    match s, bytesOfHex h with
+    | some pp, some d =>
+      let (pp', r) := feed { pp with evs := [] } d
+      (some pp', [showRes pp' r])
+    | _, _ => (s, ["bad-op"])
+  | ["destroy"] =>
+    match s with
+    | some pp =>
+      let (pp', r) := destroy { pp with evs := [] }
+      (none, [showRes pp' r])
+    | none => (s, ["bad-op"])
+  | _ => (s, ["bad-op"])
+
+def main : IO Unit := runEngine (none : Option PP) stepLine
